@@ -1604,7 +1604,14 @@ impl Ctx {
 // value-decoding pulls
 // ------------------------------------------------------------------------------------------
 impl Ctx {
-    fn exec_value(&mut self, out: &mut Out, idx: &str, asyn: bool, sc: &Script, need: usize) {
+    /// Value-returning pulls. `mode`: sync | async (pull_value[_async]), stream (pull_stream::<T>(Value)),
+    /// vec[async] (pull_to_vec[_async]), typed[async] / complex[async] (bulk slice pullers),
+    /// consume[async] / consumeerr[async] / consumepanic[async] (pull_consume[_async] with a consumer that reads
+    /// to the end and returns the bytes / then returns Err / panics on entry).
+    fn exec_value(&mut self, out: &mut Out, idx: &str, mode: &str, sc: &Script, need: usize) {
+        let asyn = mode.ends_with("async");
+        let base = mode.trim_end_matches("async");
+        let base = if base.is_empty() { "sync" } else { base };
         // logical bytes that reach the value decoder before the stream ends or breaks
         let mut delivered_wire = vec![];
         for r in &sc.wire {
@@ -1622,7 +1629,7 @@ impl Ctx {
         let op = format!(
             "value {} {} {} {} {} need {} {} wire {}",
             idx,
-            if asyn { "async" } else { "sync" },
+            mode,
             if sc.zstd { "zstd" } else { "none" },
             if sc.beve { "beve" } else { "raw" },
             match sc.open { Open::Ok => "ok", Open::Err => "err", Open::Cut => "cut" },
@@ -1634,34 +1641,62 @@ impl Ctx {
         let (name, _) = self.fresh();
         self.fake.register(&name, sc, 0);
         let addr = self.fake.addr;
-        let r: Result<Vec<u8>, RepeError> = if asyn {
-            let n = name.clone();
-            self.rt.block_on(async move {
-                let c = AsyncClient::connect(addr).await.map_err(RepeError::Io)?;
-                repe::pull_value_async::<Vec<u8>, _>(&c, &n).await
-            })
-        } else {
-            Client::connect(addr).map_err(RepeError::Io).and_then(|c| repe::pull_value::<Vec<u8>>(&c, &name))
+        let rt = &self.rt;
+        // every mode ends in "the encoded bytes of what was returned"
+        let enc_f64 = |v: &Vec<f64>| { let mut b = vec![]; let _ = beve::to_writer_typed_slice(&mut b, v); b };
+        let enc_cpx = |v: &Vec<repe::Complex<f32>>| { let mut b = vec![]; let _ = beve::to_writer_complex_slice(&mut b, v); b };
+        let read_all = |r: &mut dyn Read| -> Result<Vec<u8>, RepeError> { let mut b = vec![]; r.read_to_end(&mut b)?; Ok(b) };
+        let call = || -> Result<Vec<u8>, RepeError> {
+            if asyn {
+                let n = name.clone();
+                rt.block_on(async move {
+                    let c = AsyncClient::connect(addr).await.map_err(RepeError::Io)?;
+                    match base {
+                        "sync" => repe::pull_value_async::<Vec<u8>, _>(&c, &n).await.map(|v| beve::to_vec(&v).unwrap_or_default()),
+                        "vec" => repe::pull_to_vec_async(&c, &n).await,
+                        "typed" => repe::pull_typed_slice_async::<f64, _>(&c, &n).await.map(|v| enc_f64(&v)),
+                        "complex" => repe::pull_complex_slice_async::<f32, _>(&c, &n).await.map(|v| enc_cpx(&v)),
+                        "consume" => repe::pull_consume_async(&c, &n, |mut r| { let mut b = vec![]; r.read_to_end(&mut b)?; Ok(b) }).await,
+                        "consumeerr" => repe::pull_consume_async(&c, &n, |mut r| { let mut b = vec![]; r.read_to_end(&mut b)?; Err::<Vec<u8>, _>(rej()) }).await,
+                        _ => repe::pull_consume_async(&c, &n, |_r| -> Result<Vec<u8>, RepeError> { std::panic::panic_any(VerifyDied(1)) }).await,
+                    }
+                })
+            } else {
+                let c = Client::connect(addr).map_err(RepeError::Io)?;
+                match base {
+                    "sync" => repe::pull_value::<Vec<u8>>(&c, &name).map(|v| beve::to_vec(&v).unwrap_or_default()),
+                    "stream" => repe::pull_stream::<Vec<u8>>(&c, &name, repe::value_stream::StreamOutput::Value).map(|v| beve::to_vec(&v.unwrap_or_default()).unwrap_or_default()),
+                    "vec" => repe::pull_to_vec(&c, &name),
+                    "typed" => repe::pull_typed_slice::<f64>(&c, &name).map(|v| enc_f64(&v)),
+                    "complex" => repe::pull_complex_slice::<f32>(&c, &name).map(|v| enc_cpx(&v)),
+                    "consume" => repe::pull_consume(&c, &name, |r| read_all(r)),
+                    "consumeerr" => repe::pull_consume(&c, &name, |r| read_all(r).and_then(|_| Err::<Vec<u8>, _>(rej()))),
+                    _ => repe::pull_consume(&c, &name, |_r| -> Result<Vec<u8>, RepeError> { panic!("consumer panics") }),
+                }
+            }
         };
+        let r = catch(call);
         self.fake.unregister(&name);
-        let whole = sc.open == Open::Ok && sc.beve && sc.payload().is_some();
-        let m = if asyn { "async" } else { "sync" };
+        let to_end = matches!(base, "vec" | "consume" | "consumeerr" | "consumepanic"); // no format constraint, reads to EOF
+        let whole = sc.open == Open::Ok && (sc.beve || to_end) && sc.payload().is_some();
+        let m = mode;
         let obs = match &r {
-            Ok(v) => {
-                let enc = beve::to_vec(v).unwrap_or_default();
-                if sc.open != Open::Ok || delivered.len() < need {
+            Err(_) => format!("{idx} ret panic"),
+            Ok(Ok(enc)) => {
+                let enough = if to_end { whole } else { delivered.len() >= need };
+                if sc.open != Open::Ok || !enough {
                     out.oracle_fail(
                         &format!("commit.value.{m}.value-from-truncated-stream"),
-                        &format!("a value of {} elements was returned although only {} of the {} bytes of its encoding arrived", v.len(), delivered.len(), need),
+                        &format!("a value ({} encoded bytes) was returned although only {} bytes arrived (needed {}, stream whole: {})", enc.len(), delivered.len(), need, whole),
                         &[op.clone()],
                     );
-                } else if enc != delivered[..need] {
+                } else if (to_end && *enc != delivered) || (!to_end && enc[..] != delivered[..need]) {
                     out.oracle_fail(&format!("commit.value.{m}.wrong-value"), "the returned value is not the one that was streamed", &[op.clone()]);
                 }
-                format!("{idx} ret ok {}", digest(&enc))
+                format!("{idx} ret ok {}", digest(enc))
             }
-            Err(_) => {
-                if whole && delivered.len() >= need {
+            Ok(Err(_)) => {
+                if whole && (to_end || delivered.len() >= need) && base != "consumeerr" && base != "consumepanic" {
                     out.oracle_fail(&format!("commit.value.{m}.err-on-complete-stream"), "the whole stream arrived and decodes, but the pull returned Err", &[op.clone()]);
                 }
                 format!("{idx} ret err")
@@ -2118,16 +2153,26 @@ fn gen_and_run(args: &Args, out: &mut Out, ctx: &mut Ctx) {
         }
     }
 
-    // (D) value-decoding pulls: the value spans the whole stream, truncated at every k
-    for asyn in [false, true] {
+    // (D) value-returning pulls (every public entry point): the value spans the whole stream, truncated at every k
+    for mode in ["sync", "async", "stream", "vec", "vecasync", "typed", "typedasync", "complex", "complexasync", "consume", "consumeasync", "consumeerr", "consumeerrasync", "consumepanic", "consumepanicasync"] {
+        let base = mode.trim_end_matches("async");
         for zstd in [false, true] {
+            ZSTD_LEVEL.store(*rng.pick(&[1, 3, 19]), Ordering::Relaxed);
             let vn = 23 + rng.below(10) as usize;
-            let val: Vec<u8> = rng.bytes(vn);
-            let enc = beve::to_vec(&val).unwrap();
+            let enc: Vec<u8> = match base {
+                "typed" => { let v: Vec<f64> = (0..vn / 4).map(|_| (rng.next() % 1000) as f64 / 7.0).collect(); let mut b = vec![]; beve::to_writer_typed_slice(&mut b, &v).unwrap(); b }
+                "complex" => { let v: Vec<repe::Complex<f32>> = (0..vn / 4).map(|_| repe::Complex { re: (rng.next() % 100) as f32, im: (rng.next() % 100) as f32 / 3.0 }).collect(); let mut b = vec![]; beve::to_writer_complex_slice(&mut b, &v).unwrap(); b }
+                "vec" | "consume" | "consumeerr" | "consumepanic" => rng.bytes(vn),
+                _ => beve::to_vec(&rng.bytes(vn)).unwrap(),
+            };
             let sizes = [5usize, 7, 4];
             let nch = split_at_sizes(&if zstd { zstd_of(&enc) } else { enc.clone() }, &sizes).len();
             let mut scripts = vec![make_script(Puller::File, zstd, &enc, &sizes, None, false), make_script(Puller::File, zstd, &enc, &sizes, None, true)];
+            let full = thorough || matches!(mode, "sync" | "async" | "vec" | "vecasync");
             for k in 0..=nch {
+                if !full && k != 0 && k != 1 && k != nch - 1 && k != nch {
+                    continue;
+                }
                 for f in [Resp::Error, Resp::Cut] {
                     scripts.push(make_script(Puller::File, zstd, &enc, &sizes, Some((k, f)), false));
                 }
@@ -2138,11 +2183,17 @@ fn gen_and_run(args: &Args, out: &mut Out, ctx: &mut Ctx) {
             let mut oe = make_script(Puller::File, zstd, &enc, &sizes, None, false);
             oe.open = Open::Err;
             scripts.push(oe);
-            for sc in scripts {
-                ctx.exec_value(out, &next("v"), asyn, &sc, enc.len());
+            if !zstd {
+                // the empty stream
+                scripts.push(make_script(Puller::File, false, &[], &[4], None, true));
+            }
+            for mut sc in scripts {
+                sc.style = rng.next() & 0x7fff;
+                ctx.exec_value(out, &next("v"), mode, &sc, enc.len());
             }
         }
     }
+    ZSTD_LEVEL.store(3, Ordering::Relaxed);
 
     // (G) write-side faults: the file system refuses a write (EFBIG under RLIMIT_FSIZE in the pulling child;
     //     stands for ENOSPC / EDQUOT / EIO too). The limit sweeps the first byte, every chunk boundary +-1,
@@ -2369,7 +2420,7 @@ fn replay(ops: Vec<String>, out: &mut Out, ctx: &mut Ctx) {
                         via_ps: false,
                         style: 0,
                     };
-                    ctx.exec_value(out, &idx, w[2] == "async", &sc, w[7].parse().unwrap_or(0));
+                    ctx.exec_value(out, &idx, w[2], &sc, w[7].parse().unwrap_or(0));
                 }
             }
             _ => {}
